@@ -631,3 +631,60 @@ func AddEverybodyPlusHoledRangeRule(r *rng.R, w *World) bool {
 	w.AddFeature("except")
 	return true
 }
+
+// GenSealedWorld draws a cluster in which nothing is left open: every namespace has a Namespace object and a default-deny policy for both
+// directions, every allow rule names one existing workload by a label equality (the kind of selector an exposure report leaves out
+// once a real workload satisfies it), and - most of the time - one workload may talk to an address block. The exposure analysis of
+// such an input has nothing to report, while the plain report holds workload and address lines.
+func GenSealedWorld(r *rng.R) *World {
+	w := &World{}
+	nss := []string{"shop"}
+	if r.P(0.4) {
+		nss = append(nss, "infra")
+	}
+	for _, n := range nss {
+		w.Namespaces = append(w.Namespaces, Namespace{Name: n, HasObj: true, Labels: map[string]string{"team": n}})
+		w.NetPols = append(w.NetPols, NetPol{Ns: n, Name: "default-deny", HasTypes: true, PolicyTypes: []string{"Ingress", "Egress"}})
+	}
+	n := r.Range(2, 5)
+	for i := 0; i < n; i++ {
+		name := fmt.Sprintf("app%d", i)
+		w.Workloads = append(w.Workloads, Workload{Ns: rng.Pick(r, nss), Name: name, Kind: rng.Pick(r, []string{KDeployment, KStatefulSet, KPod, KDaemonSet}),
+			Labels: map[string]string{"app": name}, Ports: []CPort{{Num: 8000 + i, Name: "main"}}})
+	}
+	peerOf := func(from, to *Workload) NPPeer {
+		p := NPPeer{PodSel: &Sel{ML: map[string]string{"app": to.Name}}}
+		if from.Ns != to.Ns || r.P(0.2) {
+			p.NsSel = &Sel{ML: map[string]string{MetaName: to.Ns}}
+		}
+		return p
+	}
+	edges := r.Range(1, 4)
+	for e := 0; e < edges; e++ {
+		i, j := r.Intn(n), r.Intn(n)
+		if i == j {
+			continue
+		}
+		s, d := &w.Workloads[i], &w.Workloads[j]
+		port := []NPPort{{Proto: "TCP", Port: d.Ports[0].Num}}
+		w.NetPols = append(w.NetPols,
+			NetPol{Ns: s.Ns, Name: fmt.Sprintf("e%d-out", e), PodSel: Sel{ML: map[string]string{"app": s.Name}}, HasTypes: true, PolicyTypes: []string{"Egress"},
+				Egress: []NPRule{{Peers: []NPPeer{peerOf(s, d)}, Ports: port}}},
+			NetPol{Ns: d.Ns, Name: fmt.Sprintf("e%d-in", e), PodSel: Sel{ML: map[string]string{"app": d.Name}}, HasTypes: true, PolicyTypes: []string{"Ingress"},
+				Ingress: []NPRule{{Peers: []NPPeer{peerOf(d, s)}, Ports: port}}})
+	}
+	if r.P(0.75) {
+		x := &w.Workloads[r.Intn(n)]
+		np := NetPol{Ns: x.Ns, Name: "to-addresses", PodSel: Sel{ML: map[string]string{"app": x.Name}}, HasTypes: true}
+		rule := NPRule{Peers: []NPPeer{{IPBlock: &IPB{CIDR: rng.Pick(r, []string{"10.1.0.0/16", "192.168.0.0/16", "10.1.2.3/32"})}}}, Ports: []NPPort{{Proto: "TCP", Port: 5432}}}
+		if r.P(0.7) {
+			np.Egress, np.PolicyTypes = []NPRule{rule}, []string{"Egress"}
+		} else {
+			np.Ingress, np.PolicyTypes = []NPRule{rule}, []string{"Ingress"}
+		}
+		w.NetPols = append(w.NetPols, np)
+		w.AddFeature("ipBlock")
+	}
+	w.AddFeature("sealed")
+	return w
+}
